@@ -36,7 +36,7 @@ func init() {
 		MinEvals:        floor(15000, 400000),
 		MinDistinct:     floor(1500, 30000),
 		RequiredCells: func(tier string) []string {
-			cells := []string{"purity/chain-verdicts/history", "purity/chain-verdicts/concurrent", "history/full-depleted-full", "deny/empty/-", "allow/audience=unset", "allow/audience=third", "hook", "long-chain"}
+			cells := []string{"purity/chain-verdicts/history", "purity/chain-verdicts/concurrent", "purity/chain-verdicts/concurrent-focused", "chain-purity/ExecutionAllowed/same-proofs-invoker/model=deny", "chain-purity/ExecutionAllowed/same-proofs-subject/model=deny", "history/full-depleted-full", "deny/empty/-", "allow/audience=unset", "allow/audience=third", "hook", "long-chain"}
 			for _, rule := range []string{"unloadable", "link", "subject"} {
 				for _, pos := range []string{"first", "middle", "last"} {
 					cells = append(cells, "deny/"+rule+"/"+pos)
